@@ -14,6 +14,7 @@
    dispatch); that independence and the instantiation of this abstract theorem for a mixed socket set are
    NOT machine-checked here (stated in checks/C03.loop.json). *)
 From SV Require Import Lib.Base Model.EgressLoop Proofs.EgressLoopProofs.
+From SV Require Import Gen.Consts Model.DgramQueue Model.Dgram Proofs.DgramProofs Proofs.DgramLoop.
 
 Theorem C03_egress_loop_returns : forall (St : Type) (dispatch : St -> St * bool) (mu : St -> nat),
   (forall s s', dispatch s = (s', true) -> (mu s' < mu s)%nat) ->
@@ -61,3 +62,17 @@ Theorem C03_egress_loop_shared_env_example :
   poll_loop2 nat nat ex_dispatch2 Nat.pred 10 20%nat [2; 0; 3]%nat = Some (11%nat, [0; 0; 0]%nat, 3%nat).
 Proof. exact egress_loop2_example. Qed.
 Print Assumptions C03_egress_loop_shared_env_example.
+
+(* Instantiation, machine-checked, for UDP / ICMP / raw sockets (Model/Dgram.v, the model property C09
+   ties to udp.rs / icmp.rs / raw.rs): for EVERY set of well-formed datagram sockets, every environment
+   type E with every oracle [decide] fixing per dispatch what the emit closure answers (packet sent,
+   device exhausted, dispatch_ip failed) and every interface activity [pre] between passes, the egress
+   loop returns after at most (number of queued datagrams) emitting passes. *)
+Theorem C03_dgram_socket_set_egress_returns :
+  forall (E : Type) (ev : env) (decide : E -> sock -> Z * E) (pre : E -> E) fuel e ss,
+  Forall sock_wf ss -> (total2 sock dg_mu ss < fuel)%nat ->
+  exists e' r n, poll_loop2 E sock (dg_dispatch E ev decide) pre fuel e ss = Some (e', r, n) /\
+                 (n + total2 sock dg_mu r <= total2 sock dg_mu ss)%nat /\
+                 length r = length ss /\ Forall sock_wf r.
+Proof. exact dgram_socket_set_egress_returns. Qed.
+Print Assumptions C03_dgram_socket_set_egress_returns.
